@@ -21,7 +21,7 @@ equality after round trip - numerical, needs evaluation.
 import re
 from ..inline import inline_view
 from ..mir import AnchorLost
-from ..util import norm_cmps, df_of, fn_short, in_set, backward_slice, operand_path, path_last, switch_on, switch_edges
+from ..util import truth_edges, norm_cmps, df_of, fn_short, in_set, backward_slice, operand_path, path_last, switch_on, switch_edges
 from ..shapes import Accept, SV, DV, NT, impl_method
 from .c17 import REF_SER, REF_DE, norm_self, ASYMMETRIC, head, fmt, N
 
@@ -372,9 +372,7 @@ def r6(ctx, facts):
             # the empty outcome yields None
             good = False
             for e in emp:
-                for sw in switch_on(b, df, ("call", e.bb)):
-                    edges, other = switch_edges(b, sw)
-                    ttg = other if 0 in edges else edges.get(1)
+                for sw, ttg, _ff in truth_edges(b, df, ("call", e.bb)):
                     reach = b.reachable_from(ttg, removed_nodes=[c.bb])
                     if any(s[0] == "A" and s[2][0] == "agg" and s[2][1][0] == "adt" and s[2][1][1] == "core::option::Option" and s[2][1][2] == "None" for x in reach for s in b.stmts(x)):
                         good = True
